@@ -51,7 +51,7 @@ def main() -> int:
     # the library that never ends (the model proves termination) must not hang the check
     import signal
     signal.signal(signal.SIGVTALRM, _budget_exceeded)
-    signal.setitimer(signal.ITIMER_VIRTUAL, 900 if tier == "quick" else 4 * 3600)
+    signal.setitimer(signal.ITIMER_VIRTUAL, 600 if tier == "quick" else 4 * 3600)
 
     try:
         with lib.LeanLock():
@@ -105,6 +105,16 @@ def main() -> int:
             payload = json.load(open(args.replay))
             return mod.replay(payload, res)
 
+        # address-space limit for the correspondence phase (set after the Lean builds, which map large files): a loop in the
+        # library that allocates without bound must end in a MemoryError inside the library, not in the machine swapping
+        try:
+            import resource
+            cap = int(os.environ.get("VERIF_MEM_LIMIT_MB", "6144")) * 1024 * 1024
+            soft, hard = resource.getrlimit(resource.RLIMIT_AS)
+            if hard == resource.RLIM_INFINITY or cap < hard:
+                resource.setrlimit(resource.RLIMIT_AS, (cap, hard))
+        except (ImportError, ValueError, OSError):
+            pass
         mod.run(res, tier, seed)
 
         proof_broken = bool(aud["failures"])
@@ -167,8 +177,8 @@ def main() -> int:
         tb = traceback.extract_tb(ex.__traceback__)
         inner = tb[-1].filename if tb else ""
         in_lib = [f for f in tb if os.path.abspath(f.filename).startswith(os.path.join(os.path.abspath(lib.REPO), "han") + os.sep)]
-        if isinstance(ex, ImplHang) and in_lib:
-            inner = in_lib[-1].filename     # (the handler itself may be the innermost frame)
+        if isinstance(ex, (ImplHang, MemoryError)) and in_lib:
+            inner = in_lib[-1].filename     # (the handler itself / an allocation in a callee may be the innermost frame)
         if os.path.abspath(inner).startswith(os.path.join(os.path.abspath(lib.REPO), "han") + os.sep) \
                 and not isinstance(ex, (AttributeError, ImportError, NameError, TypeError)):
             payload = {"property": pid, "kind": "no-failing-input-found", "seed": seed, "tier": tier,
